@@ -137,7 +137,10 @@ def demand (C : Cat N I F V S) (σ : Sched N I) (s : St N I F V S) (m : N) :
     | .error e => .error e
     | .ok s1 =>
       if m ∈ s1.fmap then
-        .ok { s1 with queue := σ.sortQ (s1.queue ++ [m]), solving := s1.solving ++ [m] }
+        -- loading the form may already have scheduled `m` (a required line of that form)
+        if m ∈ s1.solving then .ok s1 else
+        .ok { s1 with queue := σ.sortQ (s1.queue ++ [m]), solving := s1.solving ++ [m],
+                      log := .push m :: s1.log }
       else .error (.noSuchField m)
 
 /-- `_attempt_field(field)`. `fuel` bounds the `MissingInputSpecification` retry chain (Python:
@@ -153,10 +156,7 @@ def attemptField (C : Cat N I F V S) (σ : Sched N I) :
       match demand C σ s m with
       | .error e => .error e
       | .ok s1 =>
-        -- ghost: `demand` enqueues `m` exactly when it was not yet being solved
-        .ok { s1 with fdeps := s1.fdeps.addUnmet m n,
-                      log := .waitV n m :: .attempt n ::
-                        (if m ∈ s.solving then s1.log else .push m :: s1.log) }
+        .ok { s1 with fdeps := s1.fdeps.addUnmet m n, log := .waitV n m :: .attempt n :: s1.log }
     | .needI x =>
       .ok { s with ideps := s.ideps.addUnmet x n, log := .waitI n x :: .attempt n :: s.log }
     | .needSpec x =>
